@@ -464,27 +464,6 @@ example : aggregateFees [(1000, 10000), (500, 20000)] = some (1505, 30200) := by
 
 example : aggregateFees [(7, 250000)] = some (7, 250000) := by decide
 
-/-- Aggregating the fees of ONE hop is the identity, for every u32 policy (general form of the example above): the
-    contribution bound of the hop BEFORE the last one is computed on exactly the last hop's policy. -/
-theorem aggregate_single (b p : Nat) (hb : b < 2 ^ 32) (hp : p < 2 ^ 32) : aggregateFees [(b, p)] = some (b, p) := by
-  have h1 : agg_base_step 0 b p = some b := by
-    unfold agg_base_step chkMul64 chkAdd64
-    have e1 : (0 * (1000000 + p) < 2 ^ 64) := by omega
-    have e2 : (0 * (1000000 + p) + (1000000 - 1) < 2 ^ 64) := by omega
-    have e3 : ((0 * (1000000 + p) + (1000000 - 1)) / 1000000 + b < 2 ^ 64) := by omega
-    simp only [e1, e2, e3, if_true, Option.bind_some, Option.map_some]
-    congr 1; omega
-  have h2 : agg_prop_step 0 p = some p := by
-    unfold agg_prop_step chkMul64 chkAdd64 chkSub
-    have e1 : (0 + 1000000 < 2 ^ 64) := by omega
-    have e2 : (p + 1000000 < 2 ^ 64) := by omega
-    have e3 : ((p + 1000000) * (0 + 1000000) < 2 ^ 64) := by omega
-    have e4 : ((p + 1000000) * (0 + 1000000) + (1000000 - 1) < 2 ^ 64) := by omega
-    have e5 : 1000000 ≤ ((p + 1000000) * (0 + 1000000) + (1000000 - 1)) / 1000000 := by omega
-    simp only [e1, e2, e3, e4, e5, if_true, Option.bind_some, Option.map_some]
-    congr 1; omega
-  simp only [aggregateFees, h1, h2]
-example : aggregateFees [(4294967295, 4294967295)] = some (4294967295, 4294967295) := aggregate_single _ _ (by decide) (by decide)
 
 /-- get_route's CLTV budget for the hops before the final one (pinned statement): whatever passes the search's
     `exceeds_cltv_delta_limit` test leaves room for the final delta within max_total_cltv_expiry_delta (get_route
